@@ -31,12 +31,18 @@ func main() {
 	run.Floor("discriminating_refresh", 64)
 	run.Floor("accepted_with_stale_witness_sig", 50)
 	run.Floor("http_reads", 1000)
+	run.Floor("updates_with_storage_fault", 200)
 	dir := run.Scratch()
 	n := run.Pick(1500, 40000)
 	disc := run.Pick(96, 768)
 	run.Units("hist", n, 0, func(unit int64, r *rand.Rand) {
 		var router *mux.Router
 		o := wit.HistOpts{Gen: gen.Opts{NLogs: 1 + r.IntN(3), MaxSize: 40, Branches: 2, ShareKeys: true}, Schemes: schemeSets, MinSteps: 15, MaxSteps: 40, Dir: dir}
+		if unit%3 == 1 {
+			// storage faults (interface and SQL-driver level, incl. a failing COMMIT/Close): an update that
+			// reports success must still be what a read returns
+			o.FaultProb, o.DriverFaults = 0.06, true
+		}
 		var t0 int64
 		var lastAccepted *wit.Step
 		// RunHistory calls on() right after Do, so the clock after the call is read there; the
@@ -49,6 +55,13 @@ func main() {
 				ihttp.NewServer(h.Rn.W).RegisterHandlers(router)
 			}
 			run.Count("evaluations")
+			if h.FaultFired != "" {
+				run.Count("updates_with_storage_fault")
+				run.Distinct("fault_points", h.FaultFired)
+				if s.Err == nil {
+					run.Count("updates_accepted_despite_fault")
+				}
+			}
 			observe(run, unit, h, s, router, t0, t1)
 			if s.Err == nil {
 				lastAccepted = s
